@@ -95,6 +95,19 @@ func init() {
 				itemErr = false
 			}
 		}
+		// levels: the handlers draw every level they propose
+		draws := true
+		if fd := funcDecl(pt, "partition", "insert"); fd == nil || !strings.Contains(norm(fd.Body), "Level:int32(this.index.RandomLevel()),") {
+			draws = false
+		}
+		if fd := funcDecl(pt, "partition", "batchInsert"); fd == nil || !strings.Contains(norm(fd.Body), "for_,item:=rangeitems{item.Level=int32(this.index.RandomLevel())}") {
+			draws = false
+		}
+		// ... and nothing else in the package writes a Level field of an entry that is proposed
+		if n := strings.Count(norm(pt), "Level=") + strings.Count(norm(pt), "Level:"); n != 2 {
+			draws = false
+		}
+		o.def("writeLevelsDrawnByHandler", "Bool", lbool(draws), "partition.insert and partition.batchInsert set the level of every item they propose to their own RandomLevel() draw, whatever the request carried")
 		o.def("applyItemErrorsNotReturned", "Bool", lbool(itemErr), "the partition's apply functions report item-level failures through the notification and return nil to the raft apply loop")
 		o.def("singleWriteIdErrors", "Bool", lbool(single), "single-item write handlers turn malformed ids into errors")
 	})
